@@ -338,6 +338,12 @@ def run_model(lines, timeout=3000):
     """pipe operation lines through the compiled Lean driver; one output line per input line"""
     if not lines:
         return []
+    return run_model_parallel(lines, timeout)
+
+
+def _run_model_one(lines, timeout=3000):
+    if not lines:
+        return []
     if not os.path.exists(DRIVER):
         raise Infra('model driver not built')
     data = '\n'.join(lines) + '\n'
@@ -350,6 +356,37 @@ def run_model(lines, timeout=3000):
     if len(out) != len(lines):
         raise Infra('model driver answered %d lines for %d operations' % (len(out), len(lines)))
     return out
+
+
+_POOL = None
+NPROC = max(1, min(16, (os.cpu_count() or 2) - 1))
+
+
+def pmap(fn, items, threshold=800):
+    """map a stateless module-level function over many items on all cores (fork pool; the order of
+    the results is the order of the items); small batches run in-process"""
+    global _POOL
+    items = list(items)
+    if len(items) < threshold or NPROC < 2 or os.environ.get('VERIF_SERIAL'):
+        return [fn(x) for x in items]
+    import multiprocessing
+    if _POOL is None:
+        _POOL = multiprocessing.get_context('fork').Pool(NPROC)
+    return _POOL.map(fn, items, chunksize=max(1, len(items) // (NPROC * 8)))
+
+
+def run_model_parallel(lines, timeout=3000):
+    """the compiled model driver on all cores: the operation lines are cut into contiguous chunks, one
+    driver process per chunk (every operation line is independent of the others)"""
+    n = min(NPROC, max(1, len(lines) // 300))
+    if n < 2:
+        return _run_model_one(lines, timeout)
+    size = (len(lines) + n - 1) // n
+    chunks = [lines[i:i + size] for i in range(0, len(lines), size)]
+    from concurrent.futures import ThreadPoolExecutor
+    with ThreadPoolExecutor(len(chunks)) as ex:
+        outs = list(ex.map(lambda c: _run_model_one(c, timeout), chunks))
+    return [o for part in outs for o in part]
 
 
 def seed_from_env():
